@@ -634,17 +634,17 @@ fn run_sink(sink: &Sink, pos: usize, env: Env, w: &mut World, it: &mut dyn ItM) 
     }
 }
 
-const ND_SKIP: &str = "()[]";
+const ND_SKIP: &str = "()[]{}";
 
-/// The body of `nested_delimiters('(', ')', [('[', ']')], ..)`: `block = ( '(' block ')' | '['
-/// block ']' | any().and_is(none_of("()[]")) ).repeated()` — evaluated with the same rules as
+/// The body of `nested_delimiters('(', ')', [('[', ']'), ('{', '}')], ..)`: `block = ( '(' block ')' | '['
+/// block ']' | '{' block '}' | any().and_is(none_of("()[]{}")) ).repeated()` — evaluated with the same rules as
 /// the generic combinators.
 fn nd_block(pos: usize, w: &mut World) -> usize {
     let mut p = pos;
     loop {
         let m = w.mark();
         let mut matched = None;
-        for (o, c) in [('(', ')'), ('[', ']')] {
+        for (o, c) in [('(', ')'), ('[', ']'), ('{', '}')] {
             // block.delimited_by(just(o), just(c))
             if w.toks.get(p) == Some(&o) {
                 w.consume(p);
